@@ -2,8 +2,10 @@ package main
 
 import (
 	"fmt"
+	"go/ast"
 	"go/token"
 	"go/types"
+	"regexp"
 	"strings"
 
 	"golang.org/x/tools/go/ssa"
@@ -101,8 +103,16 @@ func (e *Env) callValue(st *State, c *ssa.CallCommon, args []Val, rt types.Type,
 		}
 	}
 	_ = pos
-	// calls through a function-typed parameter are recorded under the parameter's name
-	return e.havocCall(st, c.Value.Name(), args, rt)
+	// calls through a function value are recorded under the source name of that value; parameters are a0, a1, ...
+	dn := sourceName(fr.fn, c.Value)
+	var pn []string
+	for i := range args {
+		pn = append(pn, fmt.Sprintf("a%d", i))
+	}
+	if fr.depth == 0 {
+		e.callSiteChecks(st, dn, pn, args, c)
+	}
+	return e.havocCall(st, dn, args, rt)
 }
 
 func (e *Env) invoke(st *State, recv Val, m *types.Func, args []Val, rt types.Type, name string, depth int, c *ssa.CallCommon) []Out {
@@ -284,7 +294,34 @@ func paramNamesOf(fn *ssa.Function) []string {
 	for _, p := range fn.Params {
 		out = append(out, p.Name())
 	}
+	if len(out) == 0 && fn.Signature != nil {
+		// external function (no body): names from the signature, receiver first
+		if r := fn.Signature.Recv(); r != nil {
+			out = append(out, "recv")
+		}
+		for i := 0; i < fn.Signature.Params().Len(); i++ {
+			n := fn.Signature.Params().At(i).Name()
+			if n == "" || n == "_" {
+				n = fmt.Sprintf("a%d", i)
+			}
+			out = append(out, n)
+		}
+	}
 	return out
+}
+
+// sourceName: the source-level variable name an SSA value is bound to (via debug references), else its SSA name.
+func sourceName(fn *ssa.Function, v ssa.Value) string {
+	for _, b := range fn.Blocks {
+		for _, ins := range b.Instrs {
+			if d, ok := ins.(*ssa.DebugRef); ok && d.X == v && !d.IsAddr {
+				if id, ok := d.Expr.(*ast.Ident); ok {
+					return id.Name
+				}
+			}
+		}
+	}
+	return v.Name()
 }
 
 func ifaceParamNames(e *Env, t types.Type, m *types.Func) []string {
@@ -466,12 +503,17 @@ func (e *Env) havocReach(st *State, a Val, why string, d int) {
 	}
 }
 
+var pureMethodRe = regexp.MustCompile(`\)\.(ValidateBasic|GetSigners|GetSignBytes|String|Route|Type|Bytes|Hex|IsContract|Empty|Equal|Equals)$`)
+
 func pureExternal(name string) bool {
+	if pureMethodRe.MatchString(name) && !strings.Contains(name, modPath) {
+		return true
+	}
 	for _, p := range []string{"strings.", "bytes.", "strconv.", "math.", "unicode", "encoding/hex.", "crypto/sha256.", "errors.", "fmt.S", "fmt.Errorf",
 		"github.com/ethereum/go-ethereum/common.", "(github.com/ethereum/go-ethereum/common.", "github.com/ethereum/go-ethereum/crypto.", "math/bits.", "regexp.", "(*regexp.",
 		"github.com/ethereum/go-ethereum/common/hexutil.", "(github.com/cosmos/cosmos-sdk/types.AccAddress).", "github.com/cosmos/cosmos-sdk/types.AccAddressFromBech32",
 		"(time.Time).", "(time.Duration).", "sort.SearchInts", "github.com/cosmos/cosmos-sdk/types/errors.", "(*github.com/cosmos/cosmos-sdk/types/errors.Error).",
-		"github.com/tendermint/tendermint/crypto/tmhash.", "github.com/gogo/protobuf/proto.CompactTextString", "github.com/cosmos/ibc-go/v3/modules/apps/transfer/types.", "(github.com/cosmos/ibc-go/v3/modules/apps/transfer/types.DenomTrace).", "github.com/cosmos/cosmos-sdk/types.NewIntFromString", "github.com/cosmos/cosmos-sdk/types.NewCoin", "github.com/gogo/protobuf/proto.Equal", "github.com/gogo/protobuf/proto.Size"} {
+		"github.com/tendermint/tendermint/crypto/tmhash.", "github.com/gogo/protobuf/proto.CompactTextString", "github.com/cosmos/ibc-go/v3/modules/apps/transfer/types.", "(github.com/cosmos/ibc-go/v3/modules/apps/transfer/types.DenomTrace).", "github.com/cosmos/cosmos-sdk/types.NewIntFromString", "github.com/cosmos/cosmos-sdk/types.NewDecWithPrec", "github.com/cosmos/cosmos-sdk/types.NewCoin", "github.com/gogo/protobuf/proto.Equal", "github.com/gogo/protobuf/proto.Size"} {
 		if strings.HasPrefix(name, p) {
 			return true
 		}
